@@ -1,5 +1,5 @@
 (* C09 — postponed resolution reaches the right fixpoint and terminates. *)
-From TxV Require Import Core.Base Gen.SrcResolve Model.Resolve Proofs.ResolveProofs.
+From TxV Require Import Core.Base Gen.SrcResolve Model.Resolve Proofs.ResolveOrderProofs Proofs.ResolveRetryProofs Proofs.ResolveProofs.
 
 (* [load] is the resolver model instantiated with the facts read from textx/model.py on every
    run (Gen/SrcResolve.v, tools/translate/resolve_tr.py): re-queueing of Postponed references,
@@ -11,6 +11,13 @@ From TxV Require Import Core.Base Gen.SrcResolve Model.Resolve Proofs.ResolvePro
 Theorem C09_terminates : forall (ans : provider) models, load ans models <> OutOfFuel.
 Proof. exact load_terminates. Qed.
 Print Assumptions C09_terminates.
+
+(* every resolution - of a list element or of a scalar - is counted as progress, and the pending
+   list shrinks by exactly that count *)
+Theorem C09_progress_counted : forall (ans : provider) pend st st' np d c,
+  step ans pend st = Some (st', np, d, c) -> np = d /\ sub np pend /\ length np + c = length pend.
+Proof. exact retry_in_order. Qed.
+Print Assumptions C09_progress_counted.
 
 (* With a provider given by a dependency table (a reference resolves once everything it
    waits for has resolved; "never" references are always postponed):
@@ -95,15 +102,62 @@ Print Assumptions C09_any_ready_monotone.
 
 (* ---------------------------------------------------------------- providers that ask the resolver
    Real providers learn whether an awaited reference has resolved from
-   needs_to_be_resolved / ReferenceResolver.has_unresolved_crossrefs, a snapshot that is refreshed
-   at the end of each model's step ([qload], [sprovider] in Model/Resolve.v).  Termination holds
-   for every such provider.  (The least-fixpoint verdict for this class is validated by the
-   correspondence and the property oracle on chains/digraphs over several files; it is not
-   proved: C09_snapshot_success_iff would read
-     forall ready, monotone ready -> ... (exists st, qload (fun settled => mono over settled) models = Ok st) <-> all mreach.) *)
+   needs_to_be_resolved / ReferenceResolver.has_unresolved_crossrefs, a snapshot of the owning
+   model's pending list that is refreshed only at the end of that model's step ([qload],
+   [sprovider], [commit] in Model/Resolve.v).  [smono_ans ready]: the provider resolves a reference
+   when [ready] holds of the SETTLED set (the references no resolver reports as pending).
+   The snapshot lags behind the resolved set during a step, which only delays resolutions: for
+   every monotone [ready] the verdict, the targets and the reported names are those of the least
+   fixpoint, exactly as for providers that see the resolved set directly. *)
 Theorem C09_terminates_snapshot : forall (ans : sprovider) models, qload ans models <> OutOfFuel.
 Proof. exact qload_terminates. Qed.
 Print Assumptions C09_terminates_snapshot.
+
+Theorem C09_snapshot_success_iff : forall ready, monotone ready -> forall models, NoDup (map xid (concat models)) ->
+  ((exists st, qload (smono_ans ready) models = Ok st) <->
+   forall x, In x (concat models) -> mreach (concat models) ready (xid x)).
+Proof. exact snap_success_iff. Qed.
+Print Assumptions C09_snapshot_success_iff.
+
+Theorem C09_snapshot_result : forall ready, monotone ready -> forall models st, NoDup (map xid (concat models)) ->
+  qload (smono_ans ready) models = Ok st ->
+  forall x, In x (concat models) -> mreach (concat models) ready (xid x) /\ tgt st (xid x) = Some (xtgt x).
+Proof. exact snap_ok. Qed.
+Print Assumptions C09_snapshot_result.
+
+Theorem C09_snapshot_error_names : forall ready, monotone ready -> forall models lf st, NoDup (map xid (concat models)) ->
+  qload (smono_ans ready) models = Unresolvable lf st ->
+  concat lf <> [] /\
+  forall x, In x (concat lf) <-> (In x (concat models) /\ ~ mreach (concat models) ready (xid x)).
+Proof. exact snap_fail. Qed.
+Print Assumptions C09_snapshot_error_names.
+
+Theorem C09_snapshot_never_unknown : forall ready, monotone ready -> forall models, NoDup (map xid (concat models)) ->
+  qload (smono_ans ready) models <> UnknownObject.
+Proof. exact snap_never_unknown. Qed.
+Print Assumptions C09_snapshot_never_unknown.
+
+Theorem C09_snapshot_order_independent : forall ready, monotone ready -> forall m1 m2,
+  NoDup (map xid (concat m1)) -> NoDup (map xid (concat m2)) ->
+  (forall x, In x (concat m1) <-> In x (concat m2)) ->
+  ((exists st, qload (smono_ans ready) m1 = Ok st) <-> (exists st, qload (smono_ans ready) m2 = Ok st)) /\
+  (forall st1 st2, qload (smono_ans ready) m1 = Ok st1 -> qload (smono_ans ready) m2 = Ok st2 ->
+     forall x, In x (concat m1) -> tgt st1 (xid x) = tgt st2 (xid x)).
+Proof. exact snap_order_independent. Qed.
+Print Assumptions C09_snapshot_order_independent.
+
+(* asking the resolvers (snapshot) and seeing the resolved set directly give the same verdict and targets *)
+Theorem C09_snapshot_same_as_direct : forall ready, monotone ready -> forall models, NoDup (map xid (concat models)) ->
+  ((exists st, qload (smono_ans ready) models = Ok st) <-> (exists st, load (mono_ans ready) models = Ok st)) /\
+  (forall st1 st2, qload (smono_ans ready) models = Ok st1 -> load (mono_ans ready) models = Ok st2 ->
+     forall x, In x (concat models) -> tgt st1 (xid x) = tgt st2 (xid x)).
+Proof. exact snap_same_as_direct. Qed.
+Print Assumptions C09_snapshot_same_as_direct.
+
+(* the query-mode provider of the correspondence harness (no delays) is the table instance of the class *)
+Theorem C09_snapshot_harness_instance : forall s x st, snap_ans (fun _ => 0) s x st = smono_ans dep_ready s x st.
+Proof. exact snap_ans_nodelay. Qed.
+Print Assumptions C09_snapshot_harness_instance.
 
 (* non-vacuity: a reverse chain over two models resolves in three rounds; a cycle does not *)
 Definition mkd i d n := {| xid := i; xslot := i; xmany := false; xpos := i; xtgt := 10 + i; xdeps := d; xnever := n |}.
@@ -136,3 +190,10 @@ Example C09_nonvacuous_snapshot :
   | _ => False end.
 Proof. vm_compute. repeat split; reflexivity. Qed.
 Print Assumptions C09_nonvacuous_snapshot.
+(* a cycle r1 <-> r2 in the second model, r0 of the first waits for it, r3 is fine: the error names 0, 1, 2 *)
+Example C09_nonvacuous_snapshot_fail :
+  match qload (smono_ans dep_ready) [[mkd 0 [1] false]; [mkd 1 [2] false; mkd 2 [1] false; mkd 3 [] false]] with
+  | Unresolvable lf st => map xid (concat lf) = [0; 1; 2] /\ tgt st 3 = Some 13
+  | _ => False end.
+Proof. vm_compute. split; reflexivity. Qed.
+Print Assumptions C09_nonvacuous_snapshot_fail.
